@@ -51,6 +51,27 @@ class Runner:
         self.jobs = {"UP": Job(up_parts)}
         self.job_inputs = {"DOWN": down_inputs or []}
 
+def objective(c):
+    """What any hash comparison of the consumed outputs must say, independent of the model: 'altered' if a
+    consumed output's hash differs (or the old record lacks it), 'unaltered' if every consumed output is in
+    both records with equal hashes; None for the '!!!' self comparison and when nothing is consumed."""
+    if c["down_inputs"] is None:
+        return None
+    def parse(rec):
+        d = {}
+        for item in rec.split("|"):
+            if item:
+                p, rest = item.split("=", 1)
+                d[p] = rest.split("@", 1)[0]
+        return d
+    last, now = parse(c["last"]), parse(c["now"])
+    consumed = [ip for ip in c["down_inputs"] if ip in c["up_parts"]]
+    if not consumed or any(ip not in now for ip in consumed):
+        return None
+    if any(ip not in last or last[ip] != now[ip] for ip in consumed):
+        return "altered"
+    return "unaltered"
+
 def main():
     try:
         mod = load()
@@ -58,10 +79,13 @@ def main():
         print("cannot load the real history_comparisons.py:", repr(e))
         return 3
     n = bad = bad_raise_only = 0
-    first_raise = None
-    vout = None
+    first_raise = first_missed = None
+    missed = spurious = 0
+    vout = report = None
     if "--violation-out" in sys.argv:
         vout = sys.argv[sys.argv.index("--violation-out") + 1]
+    if "--report" in sys.argv:
+        report = sys.argv[sys.argv.index("--report") + 1]
     for line in sys.stdin:
         line = line.strip()
         if not line:
@@ -81,6 +105,14 @@ def main():
             except Exception:
                 got = "raise"
         n += 1
+        obj = objective(c)
+        if got is False and obj == "altered":
+            # the production comparison misses a changed hash of a consumed output: stale results (C01)
+            missed += 1
+            if first_missed is None:
+                first_missed = c
+        if got is True and obj == "unaltered":
+            spurious += 1
         if got != c["expect"]:
             bad += 1
             # the real code RAISES on an edge comparison for which the model has an answer: in production
@@ -94,7 +126,11 @@ def main():
                     first_raise = c
             if bad <= 5:
                 print("DISAGREEMENT:", json.dumps(c), "real code says", got)
-    print(f"comparison stub vs real history_comparisons.py: {n} cases, {bad} disagreements")
+    print(f"comparison model vs real history_comparisons.py: {n} cases, {bad} disagreements ({bad_raise_only} raise, {missed} missed changes, {spurious} spurious changes)")
+    if report:
+        with open(report, "w") as f:
+            json.dump({"cases": n, "disagreements": bad, "raises": bad_raise_only, "missed_changes": missed,
+                       "spurious_changes": spurious, "first_raise": first_raise, "first_missed": first_missed}, f, indent=1)
     if bad and bad == bad_raise_only and first_raise is not None and vout:
         with open(vout, "w") as f:
             json.dump({"property": "C06", "cmp_case": first_raise, "clause": "comparison-callback-raises",
